@@ -154,12 +154,19 @@ class Attempt:
     def __init__(self, s="-"):
         self.read = None
         self.ops, self.url, self.status, self.rh, self.writes, self.hj = [], None, None, [], [], False
+        self.late_status, self.panic = None, False
         for fld in s.split(","):
             p = fld.split(":")
             if fld == "-":
                 pass
             elif fld == "hj":
                 self.hj = True
+            elif fld == "pn":
+                self.panic = True
+            elif p[0] == "lh":  # response header added after the writes: still part of what the attempt produced
+                self.rh.append((p[1], p[2]))
+            elif p[0] == "ls":  # WriteHeader after the writes
+                self.late_status = int(p[1])
             elif fld == "fl":
                 pass  # Flush attempt: the buffering writer offers no Flusher, nothing may reach the client early
             elif p[0] in ("r", "rc", "rn", "rp"):  # how the handler reads (ReadAll/ReadFull, io.Copy, io.CopyN, small Reads)
@@ -185,6 +192,8 @@ class Attempt:
     def code_seen(self):
         """response code of this attempt as an expression sees it: the chosen status, else 200 once the handler
         wrote, else 0 ('returns 0 if there was no response code', threshold.go)"""
+        if self.late_status is not None:
+            return self.late_status  # the captured status is the last one chosen (bufferWriter.WriteHeader overwrites)
         if self.status is not None and self.status != 0:
             return self.status
         return 200 if self.writes else 0
@@ -195,8 +204,11 @@ class Attempt:
                 return b
         return ""
 
+    def final_status(self):
+        return self.code_seen() or 200
+
     def body_allowed(self, method):
-        c = self.status if self.status is not None else 200
+        c = self.final_status()
         if method == "HEAD" or 100 <= c < 200 or c in (204, 304):
             return False
         if self.rh_get("Content-Length") == "0":
@@ -287,6 +299,8 @@ def expected_invocations(cfg, req):
     k = 1
     while True:
         a = req.att(k)
+        if a.panic:
+            return k, "panic"
         if a.hj and cfg.hj:
             return k, "hijack"
         if resp_over(cfg, a):
@@ -357,19 +371,22 @@ def monitor_c07(ops, outs):
             bad.append("count: handler invoked %d times, the retry condition %s gives %d" % (out.inv, "absent" if cfg.expr is None else polish(cfg.expr), n))
         elif how == "final":
             a = req.att(n)
-            st = a.status if a.status is not None else 200
+            st = a.final_status()
             hdr = {}
             for k, v in a.rh:
                 hdr.setdefault(k, []).append(v)
             data = a.data() if a.body_allowed(req.method) else b""
             if out.status != st:
-                bad.append("status: client got %s, final attempt %d produced %s" % (out.status, n, "no explicit status (200)" if a.status is None else a.status))
+                bad.append("status: client got %s, final attempt %d produced %s" % (out.status, n, "no explicit status (200)" if a.status is None and a.late_status is None else st))
             elif out.body != show_bytes(data):
                 bad.append("body: client got %s, final attempt %d produced %s" % (out.body, n, show_bytes(data)))
             elif out.hdr != show_hdr(hdr):
                 bad.append("headers: client got %s, final attempt %d produced %s" % (out.hdr, n, show_hdr(hdr)))
             elif out.cl != "ok":
                 bad.append("client: the real client did not receive the response that was written: %s" % out.cl)
+        elif how == "panic":
+            if out.status is not None or out.cl != "aborted":
+                bad.append("panic: the last handler invocation panicked, yet something reached the client: w=%s cl=%s" % (out.status, out.cl))
         elif how == "hijack":
             if out.status is not None or out.cl != "ok":
                 bad.append("hijack: something was written besides the hijacker's own response: w=%s cl=%s" % (out.status, out.cl))
@@ -378,8 +395,18 @@ def monitor_c07(ops, outs):
     return bad
 
 
-ERR_TEXT = {500: b"Internal Server Error", 502: b"Bad Gateway", 504: b"Gateway Timeout", 499: b"Client Closed Request",
-            413: b"Request Entity Too Large"}
+# http.StatusText for every 4xx / 5xx code net/http knows, plus oxy's 499: what the default error handlers write as the body
+ERR_TEXT = {k: v.encode() for k, v in {
+    400: "Bad Request", 401: "Unauthorized", 402: "Payment Required", 403: "Forbidden", 404: "Not Found", 405: "Method Not Allowed",
+    406: "Not Acceptable", 407: "Proxy Authentication Required", 408: "Request Timeout", 409: "Conflict", 410: "Gone",
+    411: "Length Required", 412: "Precondition Failed", 413: "Request Entity Too Large", 414: "Request URI Too Long",
+    415: "Unsupported Media Type", 416: "Requested Range Not Satisfiable", 417: "Expectation Failed", 418: "I'm a teapot",
+    421: "Misdirected Request", 422: "Unprocessable Entity", 423: "Locked", 424: "Failed Dependency", 425: "Too Early",
+    426: "Upgrade Required", 428: "Precondition Required", 429: "Too Many Requests", 431: "Request Header Fields Too Large",
+    451: "Unavailable For Legal Reasons", 499: "Client Closed Request", 500: "Internal Server Error", 501: "Not Implemented",
+    502: "Bad Gateway", 503: "Service Unavailable", 504: "Gateway Timeout", 505: "HTTP Version Not Supported",
+    506: "Variant Also Negotiates", 507: "Insufficient Storage", 508: "Loop Detected", 510: "Not Extended",
+    511: "Network Authentication Required"}.items()}
 
 
 def monitor_c15(ops, outs):
@@ -414,6 +441,8 @@ def monitor_c15(ops, outs):
                 # by the real client) is exactly the error handler's text for that status, nothing appended or prepended
                 if out.status in ERR_TEXT and out.body != show_bytes(ERR_TEXT[out.status]):
                     leaked = True
+                elif out.status not in ERR_TEXT and blen > 0:
+                    leaked = True  # an error status net/http has no text for, with a body: cannot be the error handler's text
                 if out.status is None or out.status < 400 or leaked or out.cl != "ok":
                     bad.append("response-limit: response of %d bytes > max %d delivered as status %s body %s client %s" % (a.total(), cfg.maxresp, out.status, out.body, out.cl))
             # spill: an accepted response larger than the memory threshold sits in a temporary file while the handler returns
@@ -523,7 +552,13 @@ def gen_attempt(rng, c, reqlen, focus, will_retry_bias, hkeys=()):
         how = rng.choice(["w", "w", "w", "wc", "wc", "wn", "ws", "wf"]) if 0 < l <= 30000 else rng.choice(["w", "w", "ws", "wf"])
         f.append("%s:%d.%d" % (how, l, rng.randint(0, 99999)))
     if rng.random() < 0.05:
+        f.append("lh:%s:l%d" % (rng.choice(["X-R", "X-L"]), rng.randint(0, 9)))
+    if rng.random() < 0.05:
+        f.append("ls:%d" % rng.choice(STATUSES))
+    if rng.random() < 0.05:
         f.append("fl")
+    if rng.random() < 0.03:
+        f.append("pn")
     if rng.random() < 0.04:
         f.append("hj")
     return ",".join(f)
@@ -593,3 +628,5 @@ def describe(ops, outs, hist):
             hist["resp:spilled"] += 1
         if out.hij:
             hist["resp:hijacked"] += 1
+        if out.cl == "aborted":
+            hist["resp:handler-panic"] += 1
